@@ -11,7 +11,7 @@ TECHNIQUE = ("bounded-exhaustive enumeration of device-activity multisets on an 
 RULE = ("every multiset (multiplicity<=2, min start = 0) of <=K activities with span in grid G_T (zero length "
         "allowed) x type {computation, communication}; a 4-type slice {computation, communication, memcpy, "
         "sync-on-stream} with <=K4 activities; a file slice (own files, 1 and 2 ranks, reversed file order); "
-        "history slice (different traces analysed one after the other in one process); each under N1 tie orders (stable, all-reversed, single-group permutations). non-trivial = idle, "
+        "decoded slice (decode_symbol_ids with shortened names called first; a computation kernel whose shortened name reads as a communication kernel); history slice (different traces analysed one after the other in one process); each under N1 tie orders (stable, all-reversed, single-group permutations). non-trivial = idle, "
         "compute and non-compute parts are not all equal to 0 or the whole span")
 ASSUMPTIONS = [
     "pandas/numpy primitives are trusted; an unstable sort may return any order of rows with equal keys",
@@ -51,6 +51,18 @@ def worlds(tier: str, stats: Dict[str, Any]) -> Iterator[Any]:
         if len(ms) == 2:
             stats["transitions"] += 1
             yield dict(mode="file", T=T, ranks=[[list(i) for i in ms]], ties=False, no_corr=True)
+            if all(i[1] > i[0] for i in ms):
+                # session slice: the same object was used for other analyses before
+                for pk in ("cp", "getters"):
+                    stats["transitions"] += 1
+                    yield dict(mode="file", T=T, ranks=[[list(i) for i in ms]], ties=False, prior=pk)
+    # the trace was decoded for display (decode_symbol_ids, shortened names) before the analysis
+    base_dec = [(s, e, ty, ni) for (s, e) in ivworlds.spans(T, zero=False) for (ty, ni) in (("P", 4), ("M", 0), ("P", 0))]
+    for ms in ivworlds.multisets(base_dec, 2):
+        if min(i[0] for i in ms) != 0 or not any(i[3] == 4 for i in ms):
+            continue
+        stats["transitions"] += 1
+        yield dict(mode="file", T=T, ranks=[[list(i) for i in ms]], ties=False, prior_decode=True)
     for seq in ivworlds.history_sequences():
         stats["transitions"] += len(seq)
         yield dict(mode="history", seq=seq)
@@ -101,7 +113,12 @@ def check(world) -> Dict[str, Any]:
         from mc import htaenv
 
         per_rank = {r: its for r, its in enumerate(world["ranks"])}
-        tas = [htaenv.load_world({r: ivworlds.events_for(its, no_corr=bool(world.get("no_corr"))) for r, its in per_rank.items()})[0]]
+        tas = [htaenv.load_world({r: ivworlds.events_for(its, no_corr=bool(world.get("no_corr")), spread=bool(world.get("prior")))
+                                  for r, its in per_rank.items()})[0]]
+        if world.get("prior"):
+            htaenv.prior_session(tas[0], world["prior"])
+        if world.get("prior_decode"):
+            tas[0].t.decode_symbol_ids(use_shorten_name=True)
     exp = {r: expected(its) for r, its in per_rank.items()}
 
     def run():
